@@ -136,13 +136,14 @@ func C11_abstract() {
 	exe, err := root.ParseExecutableString(doc)
 	sym.Assert(err == nil, "document accepted")
 	printed := exe.String()
-	rounds := 2
-	if sym.Thorough() {
-		rounds = 3
+	// quick: 2 calls over 1-2 pets each; thorough: also 3 calls over 1 pet each
+	rounds, maxPets := 2, 2
+	if sym.Thorough() && sym.Choice("calls", 2) == 1 {
+		rounds, maxPets = 3, 1
 	}
 	sym.Budget(12_000_000)
 	for round := 0; round < rounds; round++ {
-		q.pets = c01Pets("r"+string(rune('0'+round))+"p", 1+sym.Choice("pets", 2))
+		q.pets = c01Pets("r"+string(rune('0'+round))+"p", 1+sym.Choice("pets", maxPets))
 		got, _ := root.ResolveExecutable(exe, "", nil)
 		fresh, ferr := root.ParseExecutableString(doc)
 		sym.Assert(ferr == nil, "document accepted")
